@@ -13,10 +13,10 @@ PLAN = dict(
          "distinct = configuration | entry point / mutator. The hostile bytes sit in guard-page buffers (len == cap), three of "
          "four mutants against the upper page and one against the lower (thorough: every mutant in both placements).",
     jobs=both("c13.sweep", ["avx2", "purego"], shards=(8, 16), floor=2000)
-         + both("c13.built", ["avx2", "purego"], shards=(1, 2), floor=50)
+         + both("c13.built", ["avx2", "purego"], shards=(2, 4), floor=50)
          + both("c13.modes", ["avx2", "purego"], shards=(1, 2), floor=80)
          + [dict(J("c13.sweep", ["avx2"], "race", shards=(8, 16), floor=2000), thorough_only=True),
-            dict(J("c13.built", ["avx2"], "race", shards=(1, 2), floor=50), thorough_only=True),
+            dict(J("c13.built", ["avx2"], "race", shards=(4, 4), floor=50), thorough_only=True),
             dict(J("c13.modes", ["avx2"], "race", shards=(1, 2), floor=80), thorough_only=True)],
     exhaustive_note="for the seed artefacts of the run, the truncation class (every proper prefix), the four single-byte "
                     "substitution classes (every position) and the DER-edit class (every element x every edit) are enumerated "
